@@ -70,6 +70,10 @@ checks = {
  "C16": dict(cat="exploration", tech="differential monitor against big.Int group laws / textbook ECDSA, EdDSA, ecrecover (self-checked against gnark-crypto and crypto/ecdsa) in killable worker processes (test engine; compiled sample) + adversarial-execution monitor (lying GLV / fake-GLV / half-GCD decomposition and result hints incl. high-limb forgeries; residue-witness hint)",
    text="emulated short-Weierstrass on 6-7 curves (Add/AddUnified/Double/ScalarMul/ScalarMulBase/JointScalarMulBase/MSM, with and without complete arithmetic), native twisted Edwards on 8 curves, 2-chain G1/G2, all five pairing packages, ECDSA/EdDSA, EVM precompiles; documented preconditions give no verdict. Built by a sub-agent (5/5 mutants caught). Found 37 defect signatures: 13 repaired by 7 fix commits, 24 open known findings (5 soundness breaks incl. a forged P-256 ECDSA signature accepted by the compiled circuit, 1 non-terminating hint in gnark-crypto, 18 completeness classes on edge scalars).",
    note="a decomposition-hint screen keeps non-terminating scalars out of the pool (3 confirmed under a watchdog); emulated pairings are few in quick (20-120 s each)", ref="§3 C16"),
+
+ "C19": dict(cat="exploration", tech="differential monitor (random GKR topologies through std/gkr: exported values asserted against direct evaluation in-circuit and tapped through a hint against a big.Int evaluation; gkr-poseidon2 vs native and plain gadget) + adversarial-execution monitor (GkrInfo hint ids redirected on a private copy of the system: lying solve / prove hints, 33 deviations incl. best-effort proofs for wrong outputs; commitment = hash)",
+   text="bn254 and bls12-377, both builders: dependency patterns (chains, trees, stars, DAGs), fan-out, depth 1-6, 1-64 instances, custom gates of degree 1-4; ~1.9k (quick) / 38k (thorough) evaluations, every deviation that changes an output, a proof element or a native input must make Solve fail. Built by a sub-agent (3/3 mutants caught); found 4 defects: 3 repaired by fix commits, 1 open known finding (single instance).",
+   note="systems on which the solving hint would not terminate were predicted and skipped before the repair; Fiat-Shamir seeding weaknesses need an adaptive attacker not implemented", ref="§3 C19"),
 }
 pending = {}
 for i in range(1,21):
